@@ -675,9 +675,11 @@ class __Class(_pre.Pregex):
         range_pattern = \
             r"(?:\\(?:\[|\]|\^|\$|\-|\/|[a-z]|\\)|[^\[\]\^\-\/\\])" + \
             r"-(?:\\(?:\[|\]|\^|\$|\-|\/|[a-z]|\\)|[^\[\]\^\-\/\\])"
-        ranges = set(_re.findall(range_pattern, classes))
-        classes = _re.sub(pattern=range_pattern, repl="", string=classes)
-        return (ranges, set(_re.findall(r"\\?.", classes, flags=_re.DOTALL)))
+        # Scan from left to right, so that an escaped character is never split in two.
+        ranges, chars = set(), set()
+        for m in _re.finditer(f"({range_pattern})|\\\\?.", classes, flags=_re.DOTALL):
+            (chars if m.group(1) is None else ranges).add(m.group())
+        return (ranges, chars)
 
     
     @staticmethod
